@@ -33,7 +33,7 @@ func fail(format string, a ...any) {
 
 func main() {
 	if len(os.Args) != 4 {
-		fail("usage: rewrite -imports|-chans in.go out.go")
+		fail("usage: rewrite -imports|-chans|-chans-main in.go out.go")
 	}
 	mode, in, out := os.Args[1], os.Args[2], os.Args[3]
 	fset := token.NewFileSet()
@@ -48,6 +48,15 @@ func main() {
 		case `"sync/atomic"`:
 			imp.Path.Value = strconv.Quote(shimAtomic)
 		}
+	}
+	if mode == "-chans-main" {
+		// the command's main() makes room for the harness's
+		for _, d := range f.Decls {
+			if fd, ok := d.(*ast.FuncDecl); ok && fd.Recv == nil && fd.Name.Name == "main" {
+				fd.Name.Name = "mainOrig"
+			}
+		}
+		mode = "-chans"
 	}
 	if mode == "-chans" {
 		r := &rewriter{fset: fset}
